@@ -290,6 +290,9 @@ func RunCheck(opts CheckOpts) int {
 	var samples []map[string]interface{}
 	var failedNames []string
 	replayDir := filepath.Join(opts.VerifDir, "replays", opts.Prop)
+	if opts.Only == "" {
+		os.RemoveAll(replayDir)
+	}
 	for _, n := range names {
 		nr := byName[n]
 		switch nr.Status {
